@@ -263,3 +263,33 @@ fn c09_arithmetic_merge_counts() {
     kani::cover!(a.count > 0 && b.count > 0);
     kani::cover!(b.count == 0);
 }
+
+// ---- C11 (BOUNDED, 3 observations): the one-shot entry points report invalid observations at every position
+#[kani::proof]
+#[kani::unwind(5)]
+#[kani::stub(crate::stats::t_value, stub_t_value)]
+#[kani::stub(crate::stats::z_value, stub_z_value)]
+fn c11_one_shot_ci_invalid_observation_bounded() {
+    let mut data: [f32; 3] = [1.0, 2.5, 4.0];
+    let pos: usize = kani::any();
+    kani::assume(pos < 3);
+    let bad: f32 = kani::any();
+    data[pos] = bad;
+    let c = any_confidence();
+    if !bad.is_finite() {
+        assert!(matches!(Arithmetic::<f32>::ci(c, &data), Err(CIError::InvalidInputData)), "NaN/inf observation must give InvalidInputData");
+        kani::cover!(bad.is_nan() && pos == 1);
+    }
+    if bad <= 0.0 {
+        assert!(matches!(Harmonic::<f32>::ci(c, &data), Err(CIError::NonPositiveValue(v)) if v.to_bits() == (bad as f64).to_bits()));
+        assert!(matches!(Geometric::<f32>::ci(c, &data), Err(CIError::NonPositiveValue(v)) if v.to_bits() == (bad as f64).to_bits()));
+        kani::cover!(bad == 0.0 && pos == 2);
+    }
+    // too few observations
+    let one = [1.0f32];
+    let none: [f32; 0] = [];
+    assert!(matches!(Arithmetic::<f32>::ci(c, &one), Err(CIError::TooFewSamples(1))));
+    assert!(matches!(Arithmetic::<f32>::ci(c, &none), Err(CIError::TooFewSamples(0))));
+    assert!(matches!(Geometric::<f32>::ci(c, &one), Err(CIError::TooFewSamples(1))));
+    assert!(matches!(Harmonic::<f32>::ci(c, &none), Err(CIError::TooFewSamples(0))));
+}
